@@ -16,9 +16,9 @@
 
    Also here (shared with C13): the must-define data-flow [flow] used as the SUFFICIENT condition
    [safe] of the partial soundness theorem.  It is NOT part of the implementation. *)
-From Coq Require Import List ZArith Bool.
+From Coq Require Import List ZArith Bool String.
 Import ListNotations.
-From PV Require Import Fort.Syntax Fort.Sem C11.Access.
+From PV Require Import Fort.Syntax Fort.Sem C11.Access C12.IntrTable.
 
 Definition acc := (name * akind)%type.
 
@@ -250,7 +250,34 @@ Definition reason (sh : bool) (r : list stmt) (x : name) : nat :=
    A READWRITE first access is not WRITE, so the variable is an input; READWRITE is a write access, so it is
    an output.  The SEMANTICS of a call is supplied separately (the harness expands known callees and treats
    an opaque callee as reading and writing every element of its by-reference arguments). *)
-Inductive xstmt := XCore (s : stmt) | XCall (args : list expr).
+(* Whole-array statements  x = e  /  x(:) = e  (x a whole array, or a scalar for reductions), e built from whole-array
+   and scalar references, literals, operators and array-valued / reduction / inquiry intrinsics (RESHAPE, TRANSPOSE,
+   SPREAD, PACK, SUM, MAXVAL, MATMUL, DOT_PRODUCT, SHAPE, SIZE, ...).  IntrinsicCall.reference_accesses: every argument
+   READ, except the first argument of an intrinsic flagged `is_inquiry` (option COLLECT-ARRAY-SHAPE-READS off); the flag
+   is looked up in the FROZEN table of the standard's inquiry functions (C12/IntrTable.v; the tree's own flags are
+   checked against it by C12/IntrOblig.v).  `x(:) = e` is stored as x(lbound(x,1):ubound(x,1)): with the shape-read
+   option these bounds READ x and Assignment.reference_accesses raises ("appears more than once"). *)
+Inductive wexpr :=
+| WLit (z : Z)
+| WRef (x : name)
+| WBin (l r : wexpr)
+| WIntr (f : string) (args : list wexpr).
+
+Fixpoint wreads (sh : bool) (e : wexpr) : list name :=
+  match e with
+  | WLit _ => []
+  | WRef x => [x]
+  | WBin l r => wreads sh l ++ wreads sh r
+  | WIntr f args =>
+      if std_inq f && negb sh
+      then match args with [] => [] | _ :: r => flat_map (wreads sh) r end
+      else flat_map (wreads sh) args
+  end.
+
+Inductive xstmt :=
+| XCore (s : stmt)
+| XCall (args : list expr)
+| XWop (x : name) (ranged : bool) (e : wexpr).
 
 Definition call_arg (sh : bool) (e : expr) : list acc :=
   match e with
@@ -259,11 +286,20 @@ Definition call_arg (sh : bool) (e : expr) : list acc :=
   | _ => rdl (ereads_s sh e)
   end.
 Definition xaccs (sh : bool) (xs : list xstmt) : list acc :=
-  flat_map (fun x => match x with XCore s => saccs sh s | XCall args => flat_map (call_arg sh) args end) xs.
+  flat_map (fun x => match x with
+                     | XCore s => saccs sh s
+                     | XCall args => flat_map (call_arg sh) args
+                     | XWop x _ e => rdl (wreads sh e) ++ [(x, WRITE)]
+                     end) xs.
 Definition core_of (xs : list xstmt) : list stmt :=
-  flat_map (fun x => match x with XCore s => [s] | XCall _ => [] end) xs.
+  flat_map (fun x => match x with XCore s => [s] | _ => [] end) xs.
+(* the region contains statements whose semantics is supplied by the harness (calls, whole-array statements) *)
 Definition has_call (xs : list xstmt) : bool :=
-  existsb (fun x => match x with XCall _ => true | _ => false end) xs.
+  existsb (fun x => match x with XCore _ => false | _ => true end) xs.
+(* the implementation answers (does not raise NotImplementedError) *)
+Definition xs_ok (sh : bool) (xs : list xstmt) : bool :=
+  accs_ok sh (core_of xs) &&
+  forallb (fun x => match x with XWop _ ranged _ => negb (ranged && sh) | _ => true end) xs.
 
 Definition xio_agrees (c : list xstmt * bool * list name * list name) : bool :=
   match c with (xs, sh, ins, outs) =>
